@@ -32,6 +32,55 @@ EXPLANATION = (
 )
 
 
+def _write_back_bounded(proc: Func, call: ast.Call, bp: str):
+    """buf.write(X[-k:]) / buf.write(X[a:]) inside the flush: True when every path to it carries a condition `k <= E` (or
+    `k < E`) with E an expression over the buffer-size parameter and constants only; False when some path has no upper bound
+    on k at all; None when the written expression is not a tail slice with a local length."""
+    from ..flow import cond_facts
+    from ..util import resolve_on_path
+
+    if not call.args:
+        return None
+    x = call.args[0]
+    if not (isinstance(x, ast.Subscript) and isinstance(x.slice, ast.Slice) and x.slice.upper is None and x.slice.step is None and isinstance(x.slice.lower, ast.UnaryOp) and isinstance(x.slice.lower.op, ast.USub) and isinstance(x.slice.lower.operand, ast.Name)):
+        return None
+    k = x.slice.lower.operand.id
+
+    def const_in_bp(e):
+        return all((isinstance(n, ast.Name) and n.id == bp) or not isinstance(n, ast.Name | ast.Call | ast.Attribute | ast.Subscript) for n in ast.walk(e)) and any(isinstance(n, ast.Name) and n.id == bp for n in ast.walk(e)) or (try_fold(e, default=None) is not None and isinstance(try_fold(e, default=None), int))
+
+    n_paths = 0
+    for p in paths(proc, (0, 1), exc_edges=False):
+        hit = next((i for i, e in enumerate(p.events) if e.kind == "stmt" and any(c is call for c in [e.node, *walk_shallow(e.node)])), None)
+        if hit is None:
+            continue
+        n_paths += 1
+        bounded = False
+        for e in p.events[:hit]:
+            if e.kind != "cond":
+                continue
+            for t, v in cond_facts(e.node, e.val):
+                if not isinstance(t, ast.Compare):
+                    continue
+                # split chains a < k <= E into pairs
+                ops = [t.left, *t.comparators]
+                for (l, op, r) in zip(ops, t.ops, ops[1:]):
+                    o = op
+                    if not v:
+                        if len(t.ops) != 1:
+                            continue
+                        o = {ast.Gt: ast.LtE(), ast.GtE: ast.Lt(), ast.Lt: ast.GtE(), ast.LtE: ast.Gt()}.get(type(op))
+                        if o is None:
+                            continue
+                    if isinstance(l, ast.Name) and l.id == k and isinstance(o, ast.Lt | ast.LtE) and const_in_bp(r):
+                        bounded = True
+                    if isinstance(r, ast.Name) and r.id == k and isinstance(o, ast.Gt | ast.GtE) and const_in_bp(l):
+                        bounded = True
+        if not bounded:
+            return False
+    return True if n_paths else None
+
+
 def run(repo: Repo, L: Ledger, tier: str):
     L.rule("R1", "FASTA handle used only by `for line in fh` and tell()")
     L.rule("R2", "buffer write → size test vs buffer_size → flush on all paths; flush empties; parameter = configured size")
@@ -143,6 +192,13 @@ def run(repo: Repo, L: Ledger, tier: str):
     # uninterrupted run in memory: the buffer then grows with the run, not with buffer_size)
     if ok and truncs:
         back = [c for c in walk_shallow(proc.node) if isinstance(c, ast.Call) and isinstance(c.func, ast.Attribute) and c.func.attr in ("write", "writelines") and is_name(c.func.value, buf) and pos(c) > pos(truncs[0])]
+        # a write-back whose size is bounded by the configured buffer size on every path that reaches it is a bounded buffer
+        for bc in list(back):
+            verdict = _write_back_bounded(proc, bc, bp)
+            if verdict is True:
+                back.remove(bc)
+            elif verdict is None:
+                raise AnalysisError(f"{proc.short}: size of the data written back into the buffer ('{norm(bc)[:50]}') is not understood")
         if back:
             ok, why = False, f"after emptying the buffer the flush writes data back into it ({norm(back[0])[:50]}): an uninterrupted run longer than buffer_size is carried from flush to flush, so memory grows with the run length"
     L.check(ok, "R2", proc.short + ":empties", "flush takes the value and empties the buffer on every path", why, proc.loc())
